@@ -53,7 +53,12 @@ func queryDigest(an *analysis.Spec, sw *spec.Swagger) string {
 		paths = append(paths, p)
 	}
 	sort.Strings(paths)
-	cb := func(spec.Parameter, error) bool { return true }
+	// what the Safe variants tell their callback is part of the answer
+	var told []string
+	cb := func(p spec.Parameter, err error) bool {
+		told = append(told, p.Ref.String()+" "+fmt.Sprint(err != nil))
+		return true
+	}
 	per := M{}
 	for _, p := range paths {
 		for _, m := range []string{"GET", "put", "Post", "DELETE", "options", "HEAD", "PATCH", "TRACE"} {
@@ -62,6 +67,7 @@ func queryDigest(an *analysis.Spec, sw *spec.Swagger) string {
 				per[m+" "+p] = nil
 				continue
 			}
+			told = nil
 			params := an.SafeParamsFor(m, p, cb)
 			keys := make([]string, 0, len(params))
 			for k, v := range params {
@@ -91,7 +97,7 @@ func queryDigest(an *analysis.Spec, sw *spec.Swagger) string {
 				rq = append(rq, strings.Join(row, "|"))
 			}
 			per[m+" "+p] = M{"id": op.ID, "params": strs(keys), "byID": strs(byID), "consumes": strs(an.ConsumesFor(op)), "produces": strs(an.ProducesFor(op)),
-				"secDefs": strs(dn), "secReqs": rq, "secNil": reqs == nil}
+				"secDefs": strs(dn), "secReqs": rq, "secNil": reqs == nil, "told": strs(told)}
 		}
 	}
 	out["per"] = per
